@@ -72,6 +72,9 @@ func H_error() {
 	}
 	if !failed {
 		failedClose = w.Close() != nil
+	} else if rt.HasParam("closeafter") {
+		// callers close their writers whatever happened (defer w.Close()): still nothing may get through
+		w.Close()
 	}
 
 	// reference: first block of the written data that is not the signed block at that position
